@@ -146,6 +146,8 @@ func checkC11(r *Report, known []Finding) {
 				p := patternSource(rng, i, GenOpts{MaxDepth: 3})
 				if i < len(thresholdProbes) {
 					p = thresholdProbes[i]
+				} else if j := i - len(thresholdProbes); j < len(lookbehindProbes) {
+					p = lookbehindProbes[j]
 				}
 				if _, err := regexp.Compile(p); err != nil {
 					continue
@@ -173,6 +175,8 @@ func checkC11(r *Report, known []Finding) {
 						if sh := GenStretched(rng, ast); sh != nil {
 							h = sh
 						}
+					} else if j := i - len(thresholdProbes); j >= 0 && j < len(lookbehindProbes) && k < nh-1 {
+						h = []byte(lookbehindHays[(k+j)%len(lookbehindHays)])
 					}
 					if k == nh-1 { // large input: window logic, caches
 						var big []byte
